@@ -2324,6 +2324,14 @@ SGXMLScanner::buildAttList(const  RefVectorOf<KVStringPair>&  providedAttrs
                     attWildCard = ((SchemaElementDecl*)elemDecl)->getAttWildCard();
                 }
 
+                // a prohibited attribute use is no attribute use (Structures 3.4.2): if the type's wildcard admits
+                // the attribute, it is validated through the wildcard (3.4.4 clause 3.2)
+                if (attDef && attDef->getDefaultType() == XMLAttDef::Prohibited && attWildCard) {
+                    bool skipIt = false, laxIt = false;
+                    if (anyAttributeValidation(attWildCard, uriId, skipIt, laxIt))
+                        attDef = 0;
+                }
+
                 // if not found or faulted in - check for a matching wildcard attribute
                 // if no matching wildcard attribute, check (un)qualifed cases and flag
                 // appropriate errors
